@@ -156,6 +156,10 @@ def dict__(items, engine):
     """
     result = {}
     for t in items:
+        if not isinstance(t, utils.IterableType):
+            # (do not fall back to the legacy __getitem__ iteration
+            # protocol on arbitrary objects)
+            raise TypeError('{} is not iterable'.format(type(t).__name__))
         it = iter(t)
         key = next(it)
         value = next(it)
